@@ -775,6 +775,19 @@ class Exec:
             except _AllRaised: continue
             outs.append(('next', s, None))
         return outs
+    def s_AugAssign(self, n, st):
+        cur = self.eval(ast.Name(id=n.target.id, ctx=ast.Load()), st) if isinstance(n.target, ast.Name) else None
+        if cur is None: raise Unsupported('augmented assignment to a non-name target')
+        outs = []
+        for s, l in cur:
+            for s2, r in self.eval(n.value, s):
+                if isinstance(n.op, ast.Add): v = VInt(self.as_int(l) + self.as_int(r))
+                elif isinstance(n.op, ast.Sub): v = VInt(self.as_int(l) - self.as_int(r))
+                elif isinstance(n.op, ast.BitOr): v = VBool(z3.Or(self.truth(l), self.truth(r)))
+                elif isinstance(n.op, ast.BitAnd): v = VBool(z3.And(self.truth(l), self.truth(r)))
+                else: raise Unsupported('augmented operator ' + type(n.op).__name__)
+                outs.append(('next', s2.set(n.target.id, v), None))
+        return outs
     def s_AnnAssign(self, n, st):
         if n.value is None: return [('next', st, None)]
         return [('next', self.assign(s, n.target, v), None) for s, v in self.eval(n.value, st)]
@@ -783,6 +796,17 @@ class Exec:
         if isinstance(tgt, ast.Tuple) and isinstance(v, VTup) and len(tgt.elts) == len(v.items):
             for t, x in zip(tgt.elts, v.items): s = self.assign(s, t, x)
             return s
+        if isinstance(tgt, ast.Subscript) and isinstance(tgt.slice, ast.Slice):
+            # slice assignment into a list object: recorded as an event (lo, hi, value); the list itself is not modelled further
+            r = self.eval(tgt.value, s)
+            if len(r) != 1: raise Unsupported('slice target forks')
+            s, b = r[0]; sl = tgt.slice; bounds = []
+            for part in (sl.lower, sl.upper):
+                if part is None: bounds.append(None); continue
+                rr = self.eval(part, s)
+                if len(rr) != 1: raise Unsupported('slice bound forks')
+                s, pv = rr[0]; bounds.append(self.as_int(pv))
+            return s.ev('slice_assign', self.obj(b), bounds[0], bounds[1], v).eff('setitem', self.obj(b), 'slice')
         if isinstance(tgt, ast.Subscript):
             r = self.eval_list([tgt.value, tgt.slice], s)
             if len(r) != 1: raise Unsupported('subscript target forks')
